@@ -3207,11 +3207,13 @@ class Qube(object):
 
         # If a number...
         if isinstance(arg, numbers.Real):
+            # A derivative can be shared with another object, so it is replaced,
+            # not modified in place
+            new_derivs = {key: deriv._mul_by_number(arg, False)
+                          for (key, deriv) in self._derivs_.items()}
             self._values_ *= arg
             self._new_values_()
-            for key, deriv in self._derivs_.items():
-                deriv._values_ *= arg
-                deriv._new_values_()
+            self.insert_derivs(new_derivs)
             return self
 
         # Convert arg to a Scalar if necessary
@@ -3405,11 +3407,13 @@ class Qube(object):
 
         # If a number...
         if isinstance(arg, numbers.Real) and arg != 0:
+            # A derivative can be shared with another object, so it is replaced,
+            # not modified in place
+            new_derivs = {key: deriv._div_by_number(arg, False)
+                          for (key, deriv) in self._derivs_.items()}
             self._values_ /= arg
             self._new_values_()
-            for key, deriv in self._derivs_.items():
-                deriv._values_ /= arg
-                deriv._new_values_()
+            self.insert_derivs(new_derivs)
             return self
 
         # Convert arg to a Scalar if necessary
